@@ -94,9 +94,13 @@ func StreamRenameFile(f os.FileInfo, tarHeaderFileName, relativePath, fullPath s
 // Restore reads a tar archive from r and extracts all of its files into dir,
 // using only the base name of each file.
 func Restore(r io.Reader, dir string) error {
-	tr := tar.NewReader(r)
+	cr := NewCompleteReader(r)
+	tr := tar.NewReader(cr)
 	for {
 		if err := extractFile(tr, dir); err == io.EOF {
+			if !cr.Complete() {
+				return ErrIncompleteArchive
+			}
 			break
 		} else if err != nil {
 			return err
